@@ -10,6 +10,7 @@ import time
 from typing import TYPE_CHECKING, cast
 
 from pynetdicom import evt
+from pynetdicom import _verif
 from pynetdicom.fsm import StateMachine
 from pynetdicom.pdu import (
     A_ASSOCIATE_RQ,
@@ -391,6 +392,9 @@ class DULServiceProvider(Thread):
         sleep = False
 
         while True:
+            if _verif.ENABLED:
+                _verif.point("dul.iter", self)
+
             # Let the assoc reactor off the leash
             if not self.assoc._dul_ready.is_set():
                 self.assoc._dul_ready.set()
@@ -446,6 +450,9 @@ class DULServiceProvider(Thread):
             except queue.Empty:
                 sleep = True
                 continue
+
+            if _verif.ENABLED:
+                _verif.point("dul.dispatch", (self, event))
 
             self.state_machine.do_action(event)
             sleep = False
